@@ -8,6 +8,7 @@ import (
 	"context"
 	"io"
 	"net"
+	"net/http"
 	"reflect"
 	"sync/atomic"
 )
@@ -289,4 +290,26 @@ func SelCh[C any](k *SelState, i int, c C) C {
 		return zero
 	}
 	return c
+}
+
+// ---- HTTP transports relic builds for itself (timestamp client) ----
+
+// HTTPFunc answers a request on the simulated network.
+type HTTPFunc func(req *http.Request) (*http.Response, error)
+
+var httpHook atomic.Pointer[HTTPFunc]
+
+func SetHTTPRoundTrip(f HTTPFunc) {
+	if f == nil {
+		httpHook.Store(nil)
+		return
+	}
+	httpHook.Store(&f)
+}
+
+func HTTPRoundTrip() HTTPFunc {
+	if p := httpHook.Load(); p != nil {
+		return *p
+	}
+	return nil
 }
